@@ -25,5 +25,3 @@ fn vk_er_matches_reference<const P: usize, const K: usize>() {
 #[kani::proof] #[kani::unwind(6)] fn vk_er_matches_reference_p1() { vk_er_matches_reference::<1, 3>() }
 // @harness vk_er_matches_reference_p2 props=C03,C07,C08,C17 kind=bounded(period=2,steps=5) tier=thorough
 #[kani::proof] #[kani::unwind(8)] fn vk_er_matches_reference_p2() { vk_er_matches_reference::<2, 5>() }
-// @harness vk_er_matches_reference_p3 props=C03,C07,C08,C17 kind=bounded(period=3,steps=6) tier=thorough
-#[kani::proof] #[kani::unwind(9)] fn vk_er_matches_reference_p3() { vk_er_matches_reference::<3, 6>() }
